@@ -218,6 +218,7 @@ func loggerRun(args []string) int {
 	}
 	lgSlogText(r)
 	lgNoOp(r)
+	lgSharedStd(r, rng)
 	lgConcurrentSimple(r, *goroutines, *lines, int(qlog.LevelTrace))
 	lgConcurrentSimple(r, *goroutines, *lines, int(qlog.LevelInfo))
 	lgConcurrentSlog(r, *goroutines, *lines, int(qlog.LevelDebug))
@@ -433,6 +434,95 @@ func lgNoOp(r *lgRun) {
 	}
 	if buf.Len() > 0 || len(h.recs) > 0 || size > 0 {
 		r.flag("NoOpLogger emitted something: %d bytes on the default log output, %d slog records, %d bytes on stdout/stderr", buf.Len(), len(h.recs), size)
+	}
+}
+
+// ---------------------------------------------------------------------------------------------- one log.Logger, several users (sequential)
+
+// lgSharedStd: the label of a line lives in the *log.Logger the SimpleLogger was given, and that log.Logger is the caller's: it may
+// be handed to a second SimpleLogger (per-component thresholds over log.Default()) and its owner may use it directly (SetPrefix,
+// Print). Strictly sequential, one goroutine: after EVERY call made through a SimpleLogger the bytes that call appended must be
+// exactly the record of that call under the label of ITS level (or nothing, below that logger's threshold), whatever was written
+// through the same log.Logger before. Lines the owner writes directly are not judged.
+func lgSharedStd(r *lgRun, rng *rand.Rand) {
+	type step struct {
+		who   int // 0,1,2 = SimpleLogger a, b, c; 3 = owner SetPrefix; 4 = owner SetPrefix + Print
+		level int
+		text  string
+	}
+	levelConst := []qlog.Level{qlog.LevelTrace, qlog.LevelDebug, qlog.LevelInfo, qlog.LevelWarn, qlog.LevelError}
+	ownerPrefixes := []string{"", "OWNER ", "ERROR ", "INFO ", "[app] "}
+	runSeq := func(name string, thr [3]int, steps []step) {
+		var buf bytes.Buffer
+		std := log.New(&buf, "", 0)
+		ls := [3]qlog.Logger{}
+		for i := range ls {
+			ls[i] = qlog.NewSimpleLogger(std, qlog.Level(thr[i]))
+		}
+		var hist []string
+		for k, st := range steps {
+			before := buf.Len()
+			switch st.who {
+			case 3:
+				std.SetPrefix(st.text)
+				hist = append(hist, fmt.Sprintf("owner.SetPrefix(%q)", st.text))
+				continue
+			case 4:
+				std.SetPrefix(st.text)
+				std.Print("written by the owner")
+				hist = append(hist, fmt.Sprintf("owner.SetPrefix(%q); owner.Print(…)", st.text))
+				continue
+			}
+			lv := lgLevels[st.level]
+			msg := fmt.Sprintf("step %d logged at %s", k+1, lv.name)
+			lv.call(ls[st.who], msg, "by", string(rune('a'+st.who)))
+			got := buf.String()[before:]
+			hist = append(hist, fmt.Sprintf("%c.%s", 'a'+st.who, strings.ToUpper(lv.name[:1])+lv.name[1:]))
+			r.judged++
+			wantEmit := int(levelConst[st.level]) >= thr[st.who]
+			want := ""
+			if wantEmit {
+				want = lv.label + "msg=" + msg + ", by=" + string(rune('a'+st.who)) + "\n"
+			}
+			r.count("shared_log_logger", map[bool]string{true: "emitted", false: "silent"}[wantEmit]+" after "+map[bool]string{true: "a record of the same SimpleLogger", false: "another user of the log.Logger"}[k > 0 && steps[k-1].who == st.who])
+			if got != want {
+				r.flag("SimpleLoggers a, b, c (thresholds %d, %d, %d) over ONE *log.Logger, used sequentially from one goroutine (%s): after %s the call %s wrote %q, want %q "+
+					"(every record written through a SimpleLogger carries the label of the level it was logged at)", thr[0], thr[1], thr[2], name, strings.Join(hist[:len(hist)-1], "; "), hist[len(hist)-1], got, want)
+				return
+			}
+		}
+	}
+	all := [3]int{int(qlog.LevelTrace), int(qlog.LevelTrace), int(qlog.LevelTrace)}
+	// the plain cases
+	runSeq("two loggers", all, []step{{who: 0, level: 2}, {who: 2, level: 4}, {who: 0, level: 2}})
+	runSeq("two loggers", all, []step{{who: 0, level: 4}, {who: 2, level: 2}, {who: 0, level: 4}, {who: 2, level: 2}})
+	runSeq("owner sets a prefix", all, []step{{who: 0, level: 2}, {who: 3, text: "OWNER "}, {who: 0, level: 2}})
+	runSeq("owner prints", all, []step{{who: 0, level: 3}, {who: 4, text: "[app] "}, {who: 0, level: 3}, {who: 4, text: ""}, {who: 0, level: 3}})
+	runSeq("owner installs another level's label", all, []step{{who: 0, level: 2}, {who: 3, text: "ERROR "}, {who: 0, level: 2}})
+	for a := 0; a < 5; a++ { // a.X; c.Y; a.X for every pair of levels
+		for c := 0; c < 5; c++ {
+			runSeq("two loggers, every pair of levels", all, []step{{who: 0, level: a}, {who: 2, level: c}, {who: 0, level: a}})
+		}
+	}
+	// seeded random histories with different thresholds (a silent record of another logger must not disturb anything either)
+	for s := 0; s < 150; s++ {
+		thr := [3]int{[]int{-8, -4, 0}[rng.Intn(3)], []int{-8, 0, 4, 12}[rng.Intn(4)], []int{-8, 4, 8}[rng.Intn(3)]}
+		var steps []step
+		for k, n := 0, 4+rng.Intn(20); k < n; k++ {
+			switch x := rng.Intn(10); {
+			case x < 4:
+				steps = append(steps, step{who: 0, level: rng.Intn(5)})
+			case x < 6:
+				steps = append(steps, step{who: 1, level: rng.Intn(5)})
+			case x < 8:
+				steps = append(steps, step{who: 2, level: rng.Intn(5)})
+			case x < 9:
+				steps = append(steps, step{who: 3, text: ownerPrefixes[rng.Intn(len(ownerPrefixes))]})
+			default:
+				steps = append(steps, step{who: 4, text: ownerPrefixes[rng.Intn(len(ownerPrefixes))]})
+			}
+		}
+		runSeq(fmt.Sprintf("random history %d", s+1), thr, steps)
 	}
 }
 
